@@ -301,6 +301,9 @@ paf_write_header (SF_PRIVATE *psf, int UNUSED (calc_length))
 	psf->header.ptr [0] = 0 ;
 	psf->header.indx = 0 ;
 
+	/* The header belongs at the start of the file, wherever reading left the file position. */
+	psf_fseek (psf, 0, SEEK_SET) ;
+
 	if (psf->endian == SF_ENDIAN_BIG)
 	{	/* Marker, version, endianness, samplerate */
 		psf_binheader_writef (psf, "Em444", BHWm (PAF_MARKER), BHW4 (0), BHW4 (0), BHW4 (psf->sf.samplerate)) ;
